@@ -122,6 +122,11 @@ def run(ctx):
             wsel = arr[tuple(slice(a, a + e) for a, e in stp["window"])]
             if got["view"] is not None and got["view"] != [got["whole"][i] for i in wsel.ravel()]:
                 failures.append(("a view returns differently calibrated values", inp, None))
+            for name, dr, ref in (("the array", got["direct"][0], got["whole"]), ("a view", got["direct"][1], got["view"]),
+                                  ("a tagged view", got["direct"][2], got["tagged"])):
+                if dr is not None and ref is not None and dr != ref:
+                    failures.append(("read_direct on %s returns differently calibrated values than indexing" % name, inp,
+                                     {"read_direct": dr if isinstance(dr, str) else dr[:4], "indexing": ref[:4]}))
             if got["tagged"] is not None and got["tagged"] != [got["whole"][i] for i in wsel.ravel()]:
                 failures.append(("tagged data returns differently calibrated values", inp, {"tagged_shape": got["tagged_shape"]}))
     disagreements = []
@@ -151,7 +156,8 @@ def run(ctx):
                 "steps per array; per step: whole read vs the model (exact rationals) and vs the polynomial specification in "
                 "Gallina; array[region], view[:] and tagged_data(0)[:] vs the whole read (commutation); the calibration is assigned "
                 "(whole numbers as Python ints in half of the steps) through either of two Python objects of the array, the whole read is repeated through the other object, and the "
-                "view and tagged view kept from the previous step are read again after the change; raw h5py read of the "
+                "view and tagged view kept from the previous step are read again after the change; read_direct into a buffer on the "
+                "array, the view and the tagged view against indexing; raw h5py read of the "
                 "dataset (values and dtype) after every change; result dtype.",
         "disagreements": len(disagreements), "spec_failures": len(failures),
         "samples": [inputs[0]],
